@@ -10,6 +10,7 @@ static Key key_of(int k) {
     // 8 addresses x 3 generations; the addresses include pairs that differ in a single byte (first, second, last), high bytes >= 0x80, all-ones-but-one and near-zero
     static const uint64_t macs[8] = {0x02AABB000001ULL, 0x03AABB000001ULL, 0x02ABBB000001ULL, 0x02AABB000002ULL, 0xFFFFFFFFFFFEULL, 0x000000000001ULL, 0x02AABBCCDDEEULL, 0x82AABBCCDDEEULL};
     static const uint16_t gens[3] = {7, 0, 0x0101};
+    if (k >= 24) return {(k & 1) ? 0xFFFFFFFFFFFFULL : 0x000000000000ULL, gens[((k - 24) / 2) % 3]};   // the all-zero and the all-ones address are keys like any other
     return {macs[k % 8], gens[(k / 8) % 3]};
 }
 
@@ -60,7 +61,7 @@ static Verdict run(const Case &c) {
     };
     for (size_t i = 0; i < c.ops.size() && v.ok; i++) {
         const Op &op = c.ops[i];
-        Key k = key_of((int)(op.arg(0) % 24 + 24) % 24);
+        Key k = key_of((int)(op.arg(0) % 30 + 30) % 30);
         Mac m = mac_from_u64(k.first);
         uint16_t seq = (uint16_t)op.arg(1);
         int tb = (int)(op.arg(2) & 1);
@@ -147,7 +148,7 @@ int main(int argc, char **argv) {
     zygote_start(run);   // before any code under test runs in this process
     Current::install(a.failing);
     Evidence ev;
-    ev.rule = "operation sequences (length <= 200) of add/find/remove/clear/set-complete+status-update/expiry-tick/clock advance 0..200 s in milliseconds (weights on the 59/60/61 s boundaries) over 24 keys (8 structured addresses x generations {7, 0, 0x0101}) on TWO independent tables, "
+    ev.rule = "operation sequences (length <= 200) of add/find/remove/clear/set-complete+status-update/expiry-tick/clock advance 0..200 s in milliseconds (weights on the 59/60/61 s boundaries) over 30 keys (8 structured addresses plus all-zero and all-ones x generations {7, 0, 0x0101}) on TWO independent tables, "
               "compared after every step with a dictionary model per table: live entries == count == |model| <= 16, unique keys, fields, is_empty, all_complete, failed add leaves the table bit-identical, a tick removes no session idle <= 60 s and every session idle >= 61 s (the table's clock has one-second granularity), and never touches the other table. "
               "non-trivial = sequence that attempted an add on a full table or had an expiry removing some but not all sessions; distinct = digest of the sequence";
     auto gen = rc::gen::exec([] {
@@ -157,7 +158,7 @@ int main(int argc, char **argv) {
         c.ops = *rc::gen::resize(n, rc::gen::container<std::vector<Op>>(rc::gen::exec([] {
             Op o;
             int k = *gx::range<int>(0, 19);
-            int64_t key = *gx::range<int64_t>(0, 23), tb = *gx::pick({0, 0, 0, 1});
+            int64_t key = *gx::range<int64_t>(0, 29), tb = *gx::pick({0, 0, 0, 1});
             if (k <= 8) { o.kind = 1; o.a = {key, *gx::bnd({0, 1, 0xFFFF}, 0, 0xFFFF, 1, 1), tb}; }
             else if (k <= 10) { o.kind = 2; o.a = {key, *gx::range<int64_t>(0, 0xFFFF), tb}; }
             else if (k <= 12) { o.kind = 3; o.a = {key, 0, tb}; }
